@@ -1,3 +1,4 @@
+\* MUST FAIL (InvAK): self-check of the model checking, not run by bin/check
 \* one device type x 3 minors (totals 0 / 100), 2 pods, requests 50 / 100 percent of 1..2 devices; complete state space
 SPECIFICATION MSpec
 CONSTANTS
@@ -9,7 +10,7 @@ CONSTANTS
   DupCheck = TRUE
   KnownCheck = TRUE
   ResetFree = TRUE
-  CmpOK = TRUE
+  CmpOK = FALSE
 INVARIANT TypeOK
 INVARIANT InvC
 INVARIANT InvF
